@@ -47,6 +47,8 @@ def slices(tier):
         Slice("var-of-grad", [F, W], T | {"grad"}, 6, idx=(10,), jets=dict(mode="mixed", ndir=4, nspat=2, varsizes=(2,)), levels=[{"mul"}, {"grad"}, SV, {"dot", "inner", "index"}, DF, FIN], mikinds=("fixed",), **dict(kw, chain="strict")),
         # the hyperelasticity idiom: variable(I + grad u), energy, stress
         Slice("var-of-gradu", [U, ("gu", (2, 2)), F], T, 5, idx=(10,), jets=dict(mode="variable", ndir=4, opts={"gu": {"grad_of": "u"}}), levels=[{"transpose", "add", "mul"}, SV, {"tr", "inner", "det", "dot"}, DF, FIN], mikinds=("fixed",), **dict(kw, chain="strict")),
+        # powers whose exponent depends on the variable (w = 2 at the point): v**v, 2**v, v**(v*v) ...
+        Slice("pow-var", [W, ("w1", ())], S, 5, lits=[LIT["two"]], jets=J1, fixed={"w": 2, "w1": 3}, levels=[SV, {"pow", "mul"}, {"pow", "mul", "add"}, DF, FIN], **dict(kw, chain="strict")),
         # repeated diff
         Slice("scalar-dd", [W, F], S, 5, jets=J1, levels=[SV, {"mul", "pow", "div"}, DF, DF, FIN], **kw),
         # nested variables: a plain variable between v and f
